@@ -365,10 +365,31 @@ func c11Algebra(op int, store bool) {
 	} else {
 		res = refAlgebra(op, sa.mem, sb.mem) // a missing key is the empty set
 	}
+	// optional third operand "c": a set {q, <sym>} that may overlap a and b, or missing
+	third := !one && vfBool("third_operand")
+	var sc sstate
+	if third {
+		if vfBool("c.exists") {
+			x := vfBytes("c.m0", 0, 1)
+			s3 := NewSet()
+			s3.Add(string(x))
+			m.db.Set("c", s3)
+			sc = sstate{kind: kHere, mem: [][]byte{x}}
+		}
+		res = refAlgebra(op, res, sc.mem)
+	}
 	if !store {
 		args := [][]byte{bs(name), bs("a")}
 		if !one {
 			args = append(args, bs(kb))
+		}
+		if third {
+			// the third operand goes last, or between a and b
+			if vfBool("c.in_the_middle") {
+				args = [][]byte{bs(name), bs("a"), bs("c"), bs(kb)}
+			} else {
+				args = append(args, bs("c"))
+			}
 		}
 		got := hExecPerm(m, args...)
 		if wrong {
@@ -399,6 +420,13 @@ func c11Algebra(op int, store bool) {
 	if !one {
 		args = append(args, bs(kb))
 	}
+	if third {
+		if vfBool("c.in_the_middle") {
+			args = [][]byte{bs(name), bs(dk), bs("a"), bs("c"), bs(kb)}
+		} else {
+			args = append(args, bs("c"))
+		}
+	}
 	got := hExecPerm(m, args...)
 	if wrong {
 		vfAssert(isWrongType(got), name+"-wrongtype-reply")
@@ -409,6 +437,21 @@ func c11Algebra(op int, store bool) {
 	// STORE replaces the destination whatever it held, and deletes it when the result is empty
 	vfAssert(rvEq(got, vInt(int64(len(res)))), name+"-reply")
 	c11Post(m, dk, sstate{kind: kHere, mem: res}, name+"-dest")
+	// the stored result is its own object: later writes to one key must not show through another
+	if dv, ok := hGet(m, dk); ok {
+		for _, ok2 := range []string{"a", "b", "c", "d"} {
+			if ok2 == dk {
+				continue
+			}
+			if ov, has := hGet(m, ok2); has {
+				ds, isD := dv.(*Set)
+				os, isO := ov.(*Set)
+				if isD && isO {
+					vfAssert(ds != os, name+"-dest-does-not-alias-an-operand")
+				}
+			}
+		}
+	}
 	if dk != "a" {
 		c11Post(m, "a", sa, name+"-a")
 	}
